@@ -85,11 +85,11 @@ class C17(Check):
     thorough_budget_s = 900.0
     per_run_timeout_s = 300.0
     rule = ("case = full estimation run (co-located mixed optical/radar sensors, persistently visible targets, one detector configuration, optional unplanned impulses); "
-            "every detector call of the run is judged in lock-step by the reference; non-trivial = >= 2 detector calls for some target; distinct = digest of the configuration")
+            "plus 0-3 detector objects driven directly by the harness with drawn innovation histories; every detector call is judged in lock-step by the reference; non-trivial = >= 2 detector calls for some target; distinct = digest of the configuration")
     assumptions = [
         "scipy.stats.chi2.isf gives the chi-square bound; calls whose statistic is within 1e-9 relative of the bound are indeterminate",
         "fading-memory degrees of freedom with varying measurement dimension: average, current or delta-weighted dimension accepted (documentation only defines constant n_z)",
-        "history lengths are those runs produce (<= 8 quick, <= 16 thorough), not the statement's 50",
+        "histories inside runs are <= 8 (quick) / <= 16 (thorough) steps; longer ones (<= 30 / <= 50 steps, dimension 1..8 varying, drawn covariances) are fed to detector objects by the harness playing the filter",
     ]
     real_components = ["ManeuverDetection subclasses", "SequentialFilter.checkManeuverDetection", "UKF update (innovation, innovation covariance)", "EstimateAgent maneuver bookkeeping", "detected_maneuvers table"]
     stub_components = ["ray (rsim.simray incl. task retry)"]
@@ -139,8 +139,16 @@ class C17(Check):
                               estimation=gen.estimation_block(dynamics="two_body", alpha=rng.choice([0.001, 0.05, 0.5]), maneuver_detection=det),
                               noise={"init_position_std_km": 1e-3 if not coarse else rng.choice([1e-3, 0.5]), "init_velocity_std_km_p_sec": 1e-6 if not coarse else 1e-5,
                                      "filter_noise_type": "continuous_white_noise", "filter_noise_magnitude": rng.choice([3e-14, 1e-10]), "random_seed": rng.randrange(1, 2**31)})
+        # histories beyond what a short run produces: the harness plays the filter and feeds detector objects of every kind drawn innovation sequences
+        direct = []
+        for _ in range(rng.choice([0, 1, 2, 3])):
+            kind2 = rng.choice(["StandardNis", "SlidingNis", "FadingMemoryNis"])
+            direct.append({"cls": kind2, "threshold": rng.choice([0.001, 0.01, 0.05, 0.2, 0.5, 0.9, rng.uniform(0.0005, 0.999)]),
+                           "window": rng.randrange(1, 11) if kind2 == "SlidingNis" else None, "delta": rng.choice([0.05, 0.3, 0.8, 0.95, rng.uniform(0.01, 0.99)]) if kind2 == "FadingMemoryNis" else None,
+                           "length": rng.randrange(1, 51 if tier == "thorough" else 31), "dims": rng.choice(["fixed", "varying", "varying"]), "seed": rng.randrange(2**31),
+                           "level": rng.choice([0.3, 1.0, 1.0, 3.0])})
         return {"config": cfg, "plan": [{"seconds": nsteps * step}], "schedule": {"name": "seeded", "seed": rng.randrange(2**31), "retry_rate": rng.choice([0.0, 0.0, 0.2])},
-                "job_seed": rng.randrange(2**31)}
+                "job_seed": rng.randrange(2**31), "direct": direct}
 
     def sample_view(self, case):
         c = case["config"]
@@ -158,6 +166,8 @@ class C17(Check):
                 if raised_in_harness(ctx.error):
                     raise ctx.error
                 cnt["aborted_" + type(ctx.error).__name__] = 1
+            if case.get("direct"):
+                self._direct_phase(case["direct"])
             calls = {}
             for r in probes.of_kind("detect"):
                 calls[(r["step"], r["target"])] = r      # a retried update job calls the detector again on a fresh copy: keep one per step
@@ -170,6 +180,9 @@ class C17(Check):
                 stat, dofs, nis, dim = ref.step(r["innovation"], r["innov_cvr"])
                 per_target[tid] = per_target.get(tid, 0) + 1
                 cnt["detector_calls"] = cnt.get("detector_calls", 0) + 1
+                if tid < 0:
+                    cnt["detector_calls_driven_by_the_harness"] = cnt.get("detector_calls_driven_by_the_harness", 0) + 1
+                    cnt["longest_history"] = max(cnt.get("longest_history", 0), len(ref.hist))
                 cnt[f"calls_{r['cls']}"] = cnt.get(f"calls_{r['cls']}", 0) + 1
                 where = f"step {k} target {tid} {r['cls']}(threshold={r['threshold']}, window={r['window']}, delta={r['delta']}) history (NIS, dim)={[(round(n, 4), d) for n, d in ref.hist[-6:]]}"
                 # the quadratic form inverts S: allow the rounding its conditioning amplifies
@@ -211,8 +224,8 @@ class C17(Check):
                 for iso, tid, _m in rows:
                     k = round((dt.datetime.fromisoformat(iso) - S).total_seconds() / step)
                     got.add((k, tid))
-                if got != set(flags):
-                    viol.append({"clause": "detected-maneuver-rows", "key": "rows", "detail": f"detected_maneuvers rows at (step, target) {sorted(got)}, detector flags at {sorted(flags)}"})
+                if got != {kt for kt in flags if kt[1] > 0}:
+                    viol.append({"clause": "detected-maneuver-rows", "key": "rows", "detail": f"detected_maneuvers rows at (step, target) {sorted(got)}, detector flags at {sorted(kt for kt in flags if kt[1] > 0)}"})
             res["nontrivial"] = any(v >= 2 for v in per_target.values())
             cnt["history_steps_total"] = sum(per_target.values())
             res["faults"]["task_retry"] = simray.STATE.stats["retries"]
@@ -222,8 +235,49 @@ class C17(Check):
             cleanup(ctx)
         return res
 
+    @staticmethod
+    def _direct_phase(direct):
+        """The harness as filter: each drawn detector object is called once per step of a drawn history of innovations (dimension 1..8,
+        positive-definite covariances of drawn conditioning) sized so that the statistic hovers around its bound."""
+        from resonaate.estimation import maneuver_detection as md
+
+        for di, d in enumerate(direct):
+            rs = np.random.RandomState(d["seed"])
+            if d["cls"] == "StandardNis":
+                det = md.StandardNis(d["threshold"])
+            elif d["cls"] == "SlidingNis":
+                det = md.SlidingNis(d["threshold"], window_size=d["window"])
+            else:
+                det = md.FadingMemoryNis(d["threshold"], delta=d["delta"])
+            dim = int(rs.randint(1, 9))
+            for k in range(1, d["length"] + 1):
+                if d["dims"] == "varying" and rs.rand() < 0.4:
+                    dim = int(rs.randint(1, 9))
+                A = rs.randn(dim, dim)
+                Smat = A @ A.T + 10.0 ** rs.uniform(-6, 0) * np.eye(dim)
+                Smat *= 10.0 ** rs.uniform(-8, 2)
+                L = np.linalg.cholesky(Smat)
+                z = rs.randn(dim)
+                # |z|^2 ~ chi-square(dim); scale so that single-step NIS sits around its expected value times the drawn level (sometimes a jump)
+                inn = L @ z * np.sqrt(d["level"] * (rs.choice([1.0, 1.0, 1.0, 4.0, 25.0])))
+                twin = copy.deepcopy(det)
+                flag = bool(det(inn, Smat))
+                mono = []
+                if flag:
+                    for scale in (2.0, 10.0):
+                        t2 = copy.deepcopy(twin)
+                        mono.append((scale, bool(t2(inn * scale, Smat))))
+                r = probes.rec("detect", target=-(di + 1), cls=d["cls"], threshold=float(det.threshold), window=getattr(det, "window_size", None), delta=getattr(det, "delta", None),
+                               innovation=inn, innov_cvr=Smat, flag=flag, metric=None if det.metric is None else float(det.metric), monotone=mono, time=float(k))
+                r["step"] = k
+
     def shrink_candidates(self, case, violation):
         yield from generic_shrinks(case)
+        for i in range(len(case.get("direct") or [])):
+            yield variant(case, f"drop-direct-{i}", lambda c, i=i: c["direct"].pop(i))
+        for i, d in enumerate(case.get("direct") or []):
+            if d["length"] > 1:
+                yield variant(case, f"direct-{i}-half", lambda c, i=i: c["direct"][i].__setitem__("length", max(1, c["direct"][i]["length"] // 2)))
         e = case["config"]["engines"][0]
         used = {ev["scope_instance_id"] for ev in case["config"].get("events", [])}
         if len(e["targets"]) > 1:
